@@ -1596,7 +1596,7 @@ func generateScenarios(prop string, seed uint64, n int, adv bool) []*scenario {
 			out = append(out, sc)
 		case prop == "C11" && i%4 != 0:
 			out = append(out, g.statusy(i, s))
-		case prop == "C07" && i%4 != 3 && i%8 != 1:
+		case prop == "C07" && i%4 != 3 && i%8 != 1 && i%8 != 5:
 			out = append(out, g.rollout(i, s, i%3 == 0))
 		case (prop == "C08" && i%4 == 1) || (prop == "C07" && i%8 == 1):
 			// two rolling child kinds with the same kind name, told apart by their API group only
@@ -1607,6 +1607,31 @@ func generateScenarios(prop string, seed uint64, n int, adv bool) []*scenario {
 			out = append(out, sc)
 		case prop == "C08":
 			out = append(out, g.rollout(i, s, true))
+		case (prop == "C09" && i%6 == 4) || (prop == "C07" && i%8 == 5) || (prop == "C13" && i%8 == 4):
+			// during a rollout the hook fails for one parent state only: the older revision's (or, as a
+			// control, the latest one's) - an error status, a connection error or a body that is rejected
+			sc := g.rollout(i, s, true)
+			for tries := 0; tries < 20 && (sc.Ctl.GenSelector || !sc.Ctl.ParentNamespaced); tries++ {
+				sc = g.rollout(i, s, true)
+			}
+			h2 := sc.Hook
+			h2.BadForImage = []string{"v1", "v1", "v1", "v2"}[r.Intn(4)]
+			h2.BadKind = []string{"500", "garbage", "neterr"}[r.Intn(3)]
+			if prop == "C13" {
+				h2.BadKind = "garbage"
+			}
+			sc.Hook2 = &h2
+			if len(sc.Rounds) > 4 {
+				sc.Rounds = sc.Rounds[:4]
+			}
+			var fs []string
+			for _, f := range sc.Features {
+				if f != "fair" { // a rollout whose hook keeps failing does not finish
+					fs = append(fs, f)
+				}
+			}
+			sc.Features = append(fs, "rolling", "hook-fails-for-one-revision-"+h2.BadKind)
+			out = append(out, sc)
 		case prop == "C09" && i%6 == 5:
 			// the parent is deleted in the middle of a rollout while a finalize hook keeps the children
 			sc := g.rolloutFinalize(i, s)
